@@ -53,6 +53,8 @@ def run(R):
         r34(R, tus)
     if R.want("C06.R5"):
         r5(R, tus)
+    if R.want("C06.R7"):
+        r7(R)
     if R.want("C06.R6"):
         from engine import omp
         R.rule("C06.R6", "every OpenMP directive of closest.c: counters and sums written in a parallel loop are reduction variables, "
@@ -377,3 +379,24 @@ def r5(R, tus):
     rn = sum(1 for b in bodies for st, x in cfront.all_exprs(b.body) if x.k == "bin" and crules.is_rnd(x) is not None)
     R.check("conv_double_to_int_safe" in calls and rn >= 1, "C06.R5", CFILE, vr.line, vr.name,
             "verify_rounding compares the fast construct with conv_double_to_int_safe", "self check no longer compares the two roundings")
+
+
+# --------------------------------------------------------------------------------------------------
+def r7(R):
+    """the Python reference (indexing.calc_drlv2 / refine / getind) and the kernels take g-vectors one per ROW, (n, 3).  A layout guessed
+    from the shape is ambiguous for exactly three peaks: the reference then scores other vectors than the kernels."""
+    import ast
+    from engine import pyfacts
+    R.rule("C06.R7", "indexing.py: the reference functions do not choose between the (n, 3) and (3, n) layouts of the g-vectors by testing a "
+                     "shape entry against 3 (ambiguous for exactly three peaks)")
+    rel = "ImageD11/indexing.py"
+    m = pyfacts.module(R, rel)
+    n = 0
+    for q, fn in sorted(m.funcs.items()):
+        n += 1
+        for st, a in pyfacts.shape_sniffs(fn)[:1]:
+            R.violation("C06.R7", rel, st.lineno, q, "if %s: %s is transposed" % (pyfacts.src(st.test)[:50], a),
+                        "the layout of '%s' is guessed from its shape: three g-vectors make a (3, 3) array in both layouts, so for a peak list of "
+                        "exactly three the reference computes the error of other vectors than the C kernels score" % a)
+        R.inst("C06.R7", "%s:%s no layout guess" % (rel, q))
+    R.floor("C06.R7", 20)
